@@ -12,12 +12,16 @@ package harness
 // handler finishes); without WebSocket / option no reverse client is present.
 
 import (
+	"context"
 	"encoding/json"
+	"errors"
 	"fmt"
+	"net/http/httptest"
 	"strings"
 	"testing"
 	"time"
 
+	jsonrpc "github.com/filecoin-project/go-jsonrpc"
 	"pgregory.net/rapid"
 )
 
@@ -233,6 +237,68 @@ func runC16(c c16Case) (*Violation, string) {
 	return nil, ""
 }
 
+// ---- server with a custom method-name formatter: reverse calls are named by it, whatever the option order --------
+
+type c16Fmt struct {
+	Formatter string `json:"formatter"` // nons+lower | custom_sep | custom_upper (see c12Formatters)
+	RevFirst  bool   `json:"rev_first"` // WithReverseClient is listed before WithServerMethodNameFormatter
+	Clients   int    `json:"clients"`
+}
+
+type c16FmtProxy struct {
+	Who func(ctx context.Context, tok string) (string, error)
+}
+
+type c16FmtImpl struct{ id string }
+
+func (h *c16FmtImpl) Who(ctx context.Context, tok string) (string, error) {
+	return h.id + "/" + tok, nil
+}
+
+type c16FmtServer struct{}
+
+func (c16FmtServer) Ask(ctx context.Context, tok string) (string, error) {
+	rc, ok := jsonrpc.ExtractReverseClient[c16FmtProxy](ctx)
+	if !ok {
+		return "", errors.New("no reverse client")
+	}
+	return rc.Who(ctx, tok)
+}
+
+func runC16Formatter(c c16Fmt) *Violation {
+	f := c12Formatter(c.Formatter)
+	opts := []jsonrpc.ServerOption{jsonrpc.WithServerMethodNameFormatter(f), jsonrpc.WithReverseClient[c16FmtProxy]("Peer")}
+	if c.RevFirst {
+		opts[0], opts[1] = opts[1], opts[0]
+	}
+	srv := jsonrpc.NewServer(opts...)
+	srv.Register("Srv", c16FmtServer{})
+	ts := httptest.NewServer(srv)
+	defer closeTestServer(ts)
+	for i := 0; i < c.Clients; i++ {
+		id := fmt.Sprintf("fmtclient%d", i)
+		var cl struct {
+			Ask func(ctx context.Context, tok string) (string, error)
+		}
+		// the client-side handler lives in a namespace of its own; the name the server's formatter produces for the
+		// proxy's method is mapped onto it by an alias, so only that name reaches it
+		closer, err := jsonrpc.NewMergeClient(context.Background(), "ws://"+ts.Listener.Addr().String(), "Srv", []interface{}{&cl}, nil,
+			jsonrpc.WithMethodNameFormatter(f), jsonrpc.WithClientHandler("Impl", &c16FmtImpl{id: id}), jsonrpc.WithClientHandlerAlias(f("Peer", "Who"), "Impl.Who"))
+		if err != nil {
+			return nil
+		}
+		tok := fmt.Sprintf("t%d", i)
+		ctx, cancel := context.WithTimeout(context.Background(), 3*time.Second)
+		got, err := cl.Ask(ctx, tok)
+		cancel()
+		closer()
+		if err != nil || got != id+"/"+tok {
+			return violf("reverse-call-failed", "server with formatter %s (reverse-client option listed first: %v): the forward call of %s whose handler calls back returned (%q, %v), expected %q", c.Formatter, c.RevFirst, id, got, err, id+"/"+tok)
+		}
+	}
+	return nil
+}
+
 func c16NT(c c16Case) (bool, []string) {
 	cl := []string{"mode_" + c.Mode, fmt.Sprintf("clients_%d", c.Clients)}
 	nested := false
@@ -265,13 +331,13 @@ func c16NT(c c16Case) (bool, []string) {
 	return c.Clients >= 2 || c.Cut != nil, cl
 }
 
-const c16Rule = "1-5 clients connected at once, each with a reverse handler returning its own identity; 1-8 concurrent forward calls, each making 0-3 reverse calls while pending, optionally one through a field tagged rpc_method that resolves via a client-side handler alias together with one into a second client-side handler registered under another namespace (the two WithClientHandler options come in either order; every third client registers just one handler), optionally one into a client-side handler that blocks, optionally all of them through retry-tagged fields of the reverse client struct; link of one client cut (FIN/RST) at a drawn frame and byte position of the reverse exchange; modes {ws, http, server without WithReverseClient}. Non-trivial = >=2 clients connected, or a link cut; distinct by descriptor hash"
+const c16Rule = "1-5 clients connected at once, each with a reverse handler returning its own identity; 1-8 concurrent forward calls, each making 0-3 reverse calls while pending, optionally one through a field tagged rpc_method that resolves via a client-side handler alias together with one into a second client-side handler registered under another namespace (the two WithClientHandler options come in either order; every third client registers just one handler), optionally one into a client-side handler that blocks, optionally all of them through retry-tagged fields of the reverse client struct; link of one client cut (FIN/RST) at a drawn frame and byte position of the reverse exchange; modes {ws, http, server without WithReverseClient}; servers with a custom method-name formatter and the reverse-client option listed before or after it, the client-side handler reachable under the formatted name only. Non-trivial = >=2 clients connected, or a link cut; distinct by descriptor hash"
 
 func TestC16(t *testing.T) {
 	rec := NewRec("C16", c16Rule)
 	defer rec.Finish(t)
 	rec.EnableJournal()
-	rec.RequireClass("retry_tagged_reverse_call_at_loss", "forward_notification", "burst_into_stalled_link", "mode_ws", "mode_http", "mode_nooption", "clients_3", "alias_and_tag", "slow_reverse", "link_cut", "several_reverse_calls")
+	rec.RequireClass("server_formatter_custom_sep", "retry_tagged_reverse_call_at_loss", "forward_notification", "burst_into_stalled_link", "mode_ws", "mode_http", "mode_nooption", "clients_3", "alias_and_tag", "slow_reverse", "link_cut", "several_reverse_calls")
 	run := func(ft failer, c c16Case) {
 		nt, cl := c16NT(c)
 		rec.Run(ft, c, nt, cl, func() *Violation {
@@ -320,6 +386,14 @@ func TestC16(t *testing.T) {
 				Cut: &Fault{Conn: 0, Dir: "s2c", Frame: 99, Pos: "before", Kind: kind}})
 		}
 	})
+	t.Run("formatter", func(t *testing.T) {
+		for _, fn := range []string{"default", "nons+lower", "custom_sep", "custom_upper"} {
+			for _, rf := range []bool{false, true} {
+				c := c16Fmt{Formatter: fn, RevFirst: rf, Clients: 2}
+				rec.Run(t, c, true, []string{"server_formatter_" + fn, "mode_ws"}, func() *Violation { return runC16Formatter(c) })
+			}
+		}
+	})
 	rec.Rapid(t, "rapid", func(rt *rapid.T) {
 		c := c16Case{Mode: rapid.SampledFrom([]string{"ws", "ws", "ws", "ws", "http", "nooption"}).Draw(rt, "mode"), Clients: rapid.IntRange(1, 5).Draw(rt, "clients")}
 		n := rapid.IntRange(1, 8).Draw(rt, "ncalls")
@@ -342,6 +416,13 @@ func TestC16(t *testing.T) {
 
 func TestC16Replay(t *testing.T) {
 	Replay(t, "C16", 5, func(raw json.RawMessage) *Violation {
+		var probe map[string]json.RawMessage
+		_ = json.Unmarshal(raw, &probe)
+		if _, ok := probe["rev_first"]; ok {
+			var fc c16Fmt
+			_ = json.Unmarshal(raw, &fc)
+			return runC16Formatter(fc)
+		}
 		var c c16Case
 		if err := json.Unmarshal(raw, &c); err != nil {
 			return nil
